@@ -80,12 +80,12 @@ PROPS["C17"] = {
         "files": ["harness/C17/certs.go", "harness/C17/query.go"],
         "shims": ["shim.go.tmpl", "shim_chain.go.tmpl", "shim_cert.go.tmpl"],
         "quick": C17_Q,
-        "thorough": C17_Q + ["Harness_C17_pages_owner_3b", "Harness_C17_pages_all_3", "Harness_C17_list_3", "Harness_C17_create_2", "Harness_C17_list_1_wide", "Harness_C17_create_2_wide", "Harness_C17_revoke_2_wide", "Harness_C17_list_3_wide"],
+        "thorough": C17_Q + ["Harness_C17_pages_owner_3b", "Harness_C17_pages_all_3", "Harness_C17_list_3", "Harness_C17_create_2", "Harness_C17_list_1_wide"],
         "opts": {"timeout": 20000, "maxbigbytes": 9},
     }],
     "bounds": {
         "quick": "pre-state: 0..2 stored certificates, owners from {A,B}, serial any integer of 0..3 bytes (0, 255, 256, 65535, 65536, 2^24-1 are inside; in the *_wide harnesses 0..9 bytes, so 2^64 and 2^64+k are inside), state valid/revoked; one create or revoke message with symbolic serial, signer A/B, certificate CN A/B/not-an-address; then all 9 listing/lookup paths of the keeper",
-        "thorough": "3 stored certificates, serials up to 9 bytes (covers 2^64)",
+        "thorough": "3 stored certificates with 3-byte serials; the 9-byte harnesses are those of the quick tier (3 stored 9-byte certificates left 819 paths undecided in 38 min and are not registered)",
     },
     "stubs": COMMON_STUBS + [
         "KV store -> ordered association list with bytewise order decided by the solver; iterators are snapshots; gas ignored",
